@@ -1,4 +1,195 @@
-From PK Require Import Lib.Cbor Wire.Serde Wire.SerdeFacts.
-Theorem c13_stub : forall v, untag (untag v) = untag v.
-Proof. exact untag_idem. Qed.
-Print Assumptions c13_stub.
+(** C13 - CTAP2 messages use the specified integer keys and round-trip through CBOR; status bytes.
+    Statements only: each is closed by [exact] of a lemma proved in Wire/SerdeFacts.v.
+
+    Vocabulary (Wire/Serde.v): a schema [fs : list (fattr * kind)] is generated from each
+    [serde_workaround!] struct (gen/CtapSchema.v, [ALL_MESSAGES]); a message value is a list
+    [vals : list (option cbor)], one canonical CBOR value per member, [None] = the member is
+    [None]; [ser_msg fs vals] are the bytes ciborium writes, [de_msg fs b] reads bytes with
+    ciborium and returns the message read, in the form of the CBOR it serialises to. *)
+From Coq Require Import String Sorted.
+From PK Require Import Lib.Cbor Wire.Serde Wire.SerdeFacts Wire.CtapSpec Wire.gen.CtapSchema Wire.gen.Status.
+Open Scope N_scope.
+
+(** (1) Every member of the six integer-keyed messages carries the number the CTAP specification
+    assigns to it, and is required exactly when the specification says so (a missing required
+    member is an error by (7), a missing optional one is not). *)
+Theorem c13_member_numbers : forall msg fs f k,
+  In (msg, fs) ALL_MESSAGES -> In (f, k) fs ->
+  spec_of_field msg (f_rust f) = Some (f_key f, is_required (f_dflt f)).
+Proof. exact schema_field_spec. Qed.
+
+(** (2) On the wire the keys are those of the members that are present, in declaration order ... *)
+Theorem c13_wire_keys : forall m fs vals,
+  map fst (ser_entries m fs vals) = map (fun fv => key_of m (fst fv)) (filter written (combine fs vals)).
+Proof. exact ser_keys. Qed.
+
+(** ... which for every message of the crate is strictly ascending order of unsigned integers; *)
+Theorem c13_wire_keys_ascending : forall msg fs vals,
+  In (msg, fs) ALL_MESSAGES ->
+  exists keys, map fst (ser_entries IntKeys (map fst fs) vals) = map (fun n => CInt (Z.of_N n)) keys
+               /\ StronglySorted N.lt keys.
+Proof. exact wire_keys_ascending. Qed.
+
+(** ... and an absent optional member is left out (every entry is a present member with its
+    value: nothing is invented, in particular no null). *)
+Theorem c13_absent_members_omitted : forall m fs vals k v,
+  Forall2 absent_allowed fs vals ->
+  In (k, v) (ser_entries m fs vals) -> exists f, In (f, Some v) (combine fs vals) /\ k = key_of m f.
+Proof. exact ser_entries_present. Qed.
+
+(** (3) Round trip.  For every schema with pairwise distinct keys of at most 255 (checked
+    recursively by [kind_ok]), every message whose members are canonical values of their types
+    ([wt_fields]) and that CBOR can carry ([cbor_wf]: bytes below 256, valid UTF-8, lengths and
+    integers in range; nesting below ciborium's limit): reading the written bytes yields an equal
+    message. *)
+Theorem c13_round_trip : forall fs vals,
+  kind_ok (KIStruct fs) = true -> wt_fields fs vals = true ->
+  cbor_wf (ser_struct IntKeys (map fst fs) vals) = true ->
+  (depth (ser_struct IntKeys (map fst fs) vals) < cbor_fuel)%nat ->
+  de_msg fs (ser_msg fs vals) = Some (ser_struct IntKeys (map fst fs) vals).
+Proof. exact de_msg_ser_msg. Qed.
+
+(** the same for the six messages as generated from the sources (their schemas satisfy [kind_ok]) *)
+Theorem c13_message_round_trip : forall msg fs vals,
+  In (msg, fs) ALL_MESSAGES -> wt_fields fs vals = true ->
+  cbor_wf (ser_struct IntKeys (map fst fs) vals) = true ->
+  (depth (ser_struct IntKeys (map fst fs) vals) < cbor_fuel)%nat ->
+  de_msg fs (ser_msg fs vals) = Some (ser_struct IntKeys (map fst fs) vals).
+Proof. exact message_round_trip. Qed.
+
+(** the struct visitor alone, for any schema and either key mode (raw member values) *)
+Theorem c13_visitor_round_trip : forall m fs vals,
+  key_distinct m fs -> Forall2 absent_allowed fs vals ->
+  de_struct m fs (ser_entries m fs vals) = Some vals.
+Proof. exact de_ser_struct. Qed.
+
+(** every canonical value of every field type is read back unchanged *)
+Theorem c13_typed_round_trip : forall k, kind_ok k = true -> forall v, wt k v = true -> de_kind k v = Some v.
+Proof. exact de_kind_wt. Qed.
+
+(** (4) Unknown keys are ignored: an unsigned integer up to 255 that is no member's number, or a
+    text (or byte) string that is no member's name, is an unknown key; an entry with an unknown key,
+    whatever its value and wherever it stands, does not change the result. *)
+Theorem c13_unknown_int_key : forall fs z,
+  (0 <= z <= 255)%Z -> (forall f, In f fs -> f_key f <> Z.to_N z) ->
+  classify IntKeys fs (CInt z) = Some IdUnknown.
+Proof. exact unknown_int_key. Qed.
+
+Theorem c13_unknown_text_key : forall fs s,
+  (forall f, In f fs -> f_name f <> s) ->
+  classify IntKeys fs (CText s) = Some IdUnknown /\ classify IntKeys fs (CBytes s) = Some IdUnknown.
+Proof. exact unknown_text_key. Qed.
+
+Theorem c13_unknown_keys_ignored : forall fs es1 es2 k v,
+  classify IntKeys (map fst fs) k = Some IdUnknown ->
+  de_kind (KIStruct fs) (CMap (es1 ++ (k, v) :: es2)) = de_kind (KIStruct fs) (CMap (es1 ++ es2)).
+Proof. exact msg_insert_unknown. Qed.
+
+(** all unknown entries at once, for the visitor of any struct *)
+Theorem c13_unknown_entries_filtered : forall m fs es,
+  de_struct m fs es = de_struct m fs (filter (fun kv => negb (is_unknown m fs (fst kv))) es).
+Proof. exact de_struct_ignores_unknown. Qed.
+
+(** (5) Keys the visitor rejects: integers above 255 and negative integers (and, by
+    [classify], everything that is neither an integer nor a string). *)
+Theorem c13_key_out_of_range : forall fs z, (z < 0 \/ 255 < z)%Z -> classify IntKeys fs (CInt z) = None.
+Proof. exact bad_int_key. Qed.
+
+Theorem c13_rejected_key_is_error : forall fs es k v,
+  In (k, v) es -> classify IntKeys (map fst fs) k = None -> de_kind (KIStruct fs) (CMap es) = None.
+Proof. exact msg_bad_key. Qed.
+
+(** (6) A member given twice - under any two keys that denote it - is an error. *)
+Theorem c13_duplicate_is_error : forall fs i k1 v1 k2 v2 es1 es2 es3,
+  classify IntKeys (map fst fs) k1 = Some (IdField i) -> classify IntKeys (map fst fs) k2 = Some (IdField i) ->
+  de_kind (KIStruct fs) (CMap (es1 ++ (k1, v1) :: es2 ++ (k2, v2) :: es3)) = None.
+Proof. exact msg_duplicate. Qed.
+
+(** (7) A missing member without a default is an error. *)
+Theorem c13_missing_required_is_error : forall fs es i f,
+  nth_error (map fst fs) i = Some f -> f_dflt f = DRequired ->
+  (forall k v, In (k, v) es -> classify IntKeys (map fst fs) k <> Some (IdField i)) ->
+  de_kind (KIStruct fs) (CMap es) = None.
+Proof. exact msg_missing_required. Qed.
+
+(** (8) Defaults of [options] in both requests: left out altogether, or given with any subset
+    of rk/up/uv, the missing options are up = true, rk = false, uv = false. *)
+Theorem c13_options_defaults : options_defaults_ok MC_REQUEST = true /\ options_defaults_ok GA_REQUEST = true.
+Proof. exact options_defaults. Qed.
+
+(** (9) Status bytes: total, invertible; the classes partition the byte range except for 0x00,
+    which is in both enums and resolves to [Ctap2Error::Ok]. *)
+Theorem c13_status_round_trip : forall b, b < 256 ->
+  exists s, status_of_byte b = Some s /\ byte_of_status s = b.
+Proof. exact status_round_trip. Qed.
+
+Theorem c13_status_classes : forall b, b < 256 -> class_count b = (if b =? 0 then 2%nat else 1%nat).
+Proof. exact status_classes_partition. Qed.
+
+Theorem c13_status_zero : exists i, status_of_byte 0 = Some (S_Known i) /\ name_at CTAP2_TABLE i = "Ok"%string.
+Proof. exact status_zero_is_ctap2_ok. Qed.
+
+(** (10) The client: [authenticate] reports 0x2E as CredentialNotFound and passes every other byte
+    through; [register] passes every byte through, 0x2E included. *)
+Theorem c13_client_status : forall b s, b < 256 -> status_of_byte b = Some s ->
+  authenticate_error s = (if b =? CTAP2_ERR_NO_CREDENTIALS then WNamed "CredentialNotFound" else WAuthenticatorError b)
+  /\ webauthn_error_of_status s = authenticate_error s
+  /\ register_error s = WAuthenticatorError b.
+Proof. exact client_status_mapping. Qed.
+
+(** non-vacuity: a getAssertion request with an allow list, options and no extensions meets the
+    hypotheses of (3); an unknown key, a text key and a duplicate behave as (4)-(6) say *)
+Definition ex_ga_request : list (option cbor) :=
+  [Some (CText [101; 120]);                                   (* rpId "ex" *)
+   Some (CBytes (repeat 7 32));                               (* clientDataHash *)
+   Some (CArr [CMap [(CText [116; 121; 112; 101], CText [112; 117; 98; 108; 105; 99; 45; 107; 101; 121]);
+                     (CText [105; 100], CBytes [1; 2; 3])]]); (* allowList [{type: "public-key", id: h'010203'}] *)
+   None;                                                      (* extensions *)
+   Some (CMap [(CText [114; 107], CBool false); (CText [117; 112], CBool true); (CText [117; 118], CBool true)]);
+   None; Some (CInt 1)].
+
+Example c13_example_hypotheses :
+  In ("GA_REQUEST"%string, GA_REQUEST) ALL_MESSAGES /\ wt_fields GA_REQUEST ex_ga_request = true
+  /\ cbor_wf (ser_struct IntKeys (map fst GA_REQUEST) ex_ga_request) = true
+  /\ (depth (ser_struct IntKeys (map fst GA_REQUEST) ex_ga_request) < cbor_fuel)%nat.
+Proof.
+  split; [right; right; left; reflexivity|]. split; [vm_compute; reflexivity|].
+  split; [vm_compute; reflexivity|]. vm_compute. repeat constructor.
+Qed.
+
+Example c13_example_round_trip :
+  de_msg GA_REQUEST (ser_msg GA_REQUEST ex_ga_request) = Some (ser_struct IntKeys (map fst GA_REQUEST) ex_ga_request)
+  /\ firstn 4 (ser_msg GA_REQUEST ex_ga_request) = [165; 1; 98; 101].      (* a5 01 62 "e" *)
+Proof. split; vm_compute; reflexivity. Qed.
+
+Example c13_example_unknown_and_duplicate :
+  let es := ser_entries IntKeys (map fst GA_REQUEST) ex_ga_request in
+  de_kind (KIStruct GA_REQUEST) (CMap ((CInt 10, CNull) :: es ++ [(CText [102; 111; 111], CInt 1)]))
+    = de_kind (KIStruct GA_REQUEST) (CMap es)
+  /\ de_kind (KIStruct GA_REQUEST) (CMap (es ++ [(CText [114; 112; 73; 100], CText [])])) = None     (* "rpId" again *)
+  /\ de_kind (KIStruct GA_REQUEST) (CMap (tl es)) = None                                            (* rpId missing *)
+  /\ de_kind (KIStruct GA_REQUEST) (CMap ((CInt 256, CNull) :: es)) = None
+  /\ de_kind (KIStruct GA_REQUEST) (CMap ((CInt (-1), CNull) :: es)) = None.
+Proof. repeat split; vm_compute; reflexivity. Qed.
+
+Print Assumptions c13_member_numbers.
+Print Assumptions c13_wire_keys.
+Print Assumptions c13_wire_keys_ascending.
+Print Assumptions c13_absent_members_omitted.
+Print Assumptions c13_round_trip.
+Print Assumptions c13_message_round_trip.
+Print Assumptions c13_visitor_round_trip.
+Print Assumptions c13_typed_round_trip.
+Print Assumptions c13_unknown_int_key.
+Print Assumptions c13_unknown_text_key.
+Print Assumptions c13_unknown_keys_ignored.
+Print Assumptions c13_unknown_entries_filtered.
+Print Assumptions c13_key_out_of_range.
+Print Assumptions c13_rejected_key_is_error.
+Print Assumptions c13_duplicate_is_error.
+Print Assumptions c13_missing_required_is_error.
+Print Assumptions c13_options_defaults.
+Print Assumptions c13_status_round_trip.
+Print Assumptions c13_status_classes.
+Print Assumptions c13_status_zero.
+Print Assumptions c13_client_status.
